@@ -35,8 +35,12 @@ impl Built {
 }
 
 pub fn run_at(root: &Path, case: &ProjectCase, mode: Mode, trailing: bool) -> Outcome {
+    run_at_spec(root, case, mode, trailing, Spec::Free { delay: None })
+}
+
+pub fn run_at_spec(root: &Path, case: &ProjectCase, mode: Mode, trailing: bool, spec: Spec) -> Outcome {
     let cfg = RunCfg { base: root.to_path_buf(), inputs: case.inputs.clone(), mode, threads: case.threads, recursive: case.recursive, trailing, shell: String::new() };
-    run_inproc(&cfg, Spec::Free { delay: None }, Some(root), false)
+    run_inproc(&cfg, spec, Some(root), false)
 }
 
 /// extra sources with special output sizes (empty, exactly one / two BufReader buffers, ...)
@@ -732,7 +736,21 @@ fn c08_prestates(ctx: &mut Ctx, b: &Built, r: &mut StdRng, rounds: usize) {
                 }
                 ctx.cover("prestate_classes", &format!("{}:{k}", if b.expect.built.temps.contains_key(g) { "temp" } else { "output" }));
             }
-            let o = run_at(&b.root, &b.case, mode.clone(), b.case.trailing);
+            // half of the rounds under a randomly controlled schedule (arrival orders of worker
+            // results matter when leftovers are lying around), and - when the project has
+            // dependencies - a third of them naming only the top-level file
+            let spec = if round % 2 == 1 { Spec::Controlled { strategy: crate::sched::Strategy::Random(r.gen()), early_poll_at: None, eager_recv: false } } else { Spec::Free { delay: None } };
+            let mut run_case = b.case.clone();
+            if round % 3 == 2 {
+                if let Some(top) = model::sources(&b.case.files).into_iter().find(|s| {
+                    let e = model::evaluate(&b.case.files, "/nonexistent", b.case.trailing, &[s.clone()]);
+                    e.built.outputs.len() == b.expect.built.outputs.len() && e.built.temps.len() == b.expect.built.temps.len() && e.built.outputs.len() > 1
+                }) {
+                    run_case.inputs = vec![model::output_of(&top).unwrap()];
+                    ctx.count("prestate_rounds_naming_only_the_top_file", 1);
+                }
+            }
+            let o = run_at_spec(&b.root, &run_case, mode.clone(), b.case.trailing, spec);
             ctx.evals += 1;
             ctx.distinct.insert(b.case.hash() ^ crate::util::hash_str(&format!("{assignment:?}{mode:?}")));
             let mut cj = case_json(b, json!({"kind": "prestate", "assignment": assignment.iter().map(|(g, k)| json!([g, k])).collect::<Vec<_>>(), "build_mode": crate::run::mode_name(&mode)}));
